@@ -60,6 +60,8 @@ type WriteRec struct {
 	Off   int    `json:"off"`
 	At    string `json:"at"`
 	Fn    string `json:"fn"`
+	Val   int    `json:"val"` // node ids of the stored and the overwritten word (-1: not a word)
+	Old   int    `json:"old"`
 }
 
 type BranchRec struct {
@@ -90,6 +92,7 @@ type State struct {
 	hash     map[int]*HashState
 	bigv     map[int]*Node
 	randCnt  int
+	pools    map[int][]Val // sync.Pool contents (by pool object): a later Get in the same run hands back what was Put
 	mark     int
 	forced   int // forced choice for next choose() (-1 none)
 	conc     map[int]int64
@@ -142,6 +145,10 @@ func (s *State) clone() *State {
 	c.conc = map[int]int64{}
 	for k, v := range s.conc {
 		c.conc[k] = v
+	}
+	c.pools = map[int][]Val{}
+	for k, v := range s.pools {
+		c.pools[k] = append([]Val(nil), v...)
 	}
 	c.strObj = map[string]int{}
 	for k, v := range s.strObj {
@@ -246,7 +253,14 @@ func (x *Exec) writeSlot(st *State, objID, off int, v Val) {
 		for _, f := range st.frames {
 			chain = append(chain, shortFn(f.fn.String()))
 		}
-		st.writes = append(st.writes, WriteRec{Obj: o.id, Label: o.label, Tag: o.tag, Off: off, At: at, Fn: fn + " via " + strings.Join(chain, ">")})
+		vi, oi := -1, -1
+		if w, ok := v.(W); ok {
+			vi = w.n.ID
+		}
+		if w, ok := o.slots[off].(W); ok {
+			oi = w.n.ID
+		}
+		st.writes = append(st.writes, WriteRec{Obj: o.id, Label: o.label, Tag: o.tag, Off: off, At: at, Fn: fn + " via " + strings.Join(chain, ">"), Val: vi, Old: oi})
 	}
 	if o.id <= st.mark || true {
 		st.wset[o.id] = true
@@ -995,6 +1009,19 @@ func (x *Exec) step(st *State, f *Frame, ins ssa.Instruction) []*State {
 			switch d.fn.String() {
 			case "(*sync.Mutex).Unlock", "(*sync.RWMutex).Unlock", "(*sync.RWMutex).RUnlock":
 				return nil // no-op in a sequential run; stay on RunDefers for the next deferred call
+			case "(*sync.Pool).Put":
+				// handing an object back to the pool: shared process state (recorded like a direct Put)
+				at, fnm := x.curPos(st)
+				lbl := "sync.Pool"
+				if pp, ok := d.args[0].(P); ok && pp.obj != 0 {
+					lbl = x.obj(st, pp.obj).label + " (sync.Pool)"
+					st.writes = append(st.writes, WriteRec{Obj: pp.obj, Label: lbl, Tag: "Global", Off: 0, At: at, Fn: fnm + " (shared pool, deferred Put)", Val: -1, Old: -1})
+					if st.pools == nil {
+						st.pools = map[int][]Val{}
+					}
+					st.pools[pp.obj] = append(st.pools[pp.obj], d.args[1])
+				}
+				return nil
 			}
 			x.pushFrame(st, d.fn, d.args, nil)
 			st.frames[len(st.frames)-1].noAdv = true
